@@ -184,7 +184,8 @@ pub fn check(st: &mut Stats, c: &C) {
             let r = a.sub_date(b);
             let ds = (c.a - c.b) / SEC; // exact whole seconds, |ds| < 2^53
             let err = (r * 86_400.0 - ds as f64).abs();
-            let tol = (ds as f64).abs() * (2f64).powi(-50) + 1e-9;
+            // 4 ulps (the check itself multiplies by 86400 once more); no absolute slack: a zero distance must give 0
+            let tol = (ds as f64).abs() * (2f64).powi(-50);
             if !(err <= tol) {
                 st.fail("C16/sub_date/not-the-distance-in-days", format!("{} - {} = {} days, exact {} s", c.a, c.b, r, ds));
             } else if ds % 86_400 == 0 && r != (ds / 86_400) as f64 {
@@ -202,7 +203,7 @@ pub fn run(ctx: &Ctx, st: &mut Stats) {
     cal();
     let times: Vec<i64> = time_pool().iter().map(|t| floor_sec(*t)).collect::<std::collections::BTreeSet<_>>().into_iter().collect();
     let subs = [0i64, 1, 499_999, 500_000, 999_999];
-    let stride = ctx.tier.pick(20_011, 3, 1);
+    let stride = ctx.tier.pick(20_011, ctx.q(3, 1), 1);
     let nt = times.len() as i64;
     let times_ref = &times;
     ctx.par(st, "dates x critical-times x sub-second {0,1,499999,500000,999999}", true, 0, (N_DAYS as i64 / stride) * nt, |st, i, _| {
